@@ -1020,9 +1020,12 @@ pub unsafe extern "C" fn oxidd_zbdd_singleton(manager: zbdd_manager_t, var: VarN
 /// @returns  The ZBDD set referencing the new node
 #[unsafe(no_mangle)]
 pub unsafe extern "C" fn oxidd_zbdd_make_node(var: zbdd_t, hi: zbdd_t, lo: zbdd_t) -> zbdd_t {
+    // Take ownership of `hi` and `lo` first (as documented), such that they
+    // are released on every path, also if `var` or one of them is invalid.
+    let hi = unsafe { hi.get() }.map(ManuallyDrop::into_inner);
+    let lo = unsafe { lo.get() }.map(ManuallyDrop::into_inner);
     let res = unsafe { var.get() }.and_then(|var| {
-        let hi = ManuallyDrop::into_inner(unsafe { hi.get() }?);
-        let lo = ManuallyDrop::into_inner(unsafe { lo.get() }?);
+        let (hi, lo) = (hi?, lo?);
         var.with_manager_shared(|manager, var| {
             oxidd::zbdd::make_node(manager, var, hi.into_edge(manager), lo.into_edge(manager))
                 .map(|e| ZBDDFunction::from_edge(manager, e))
